@@ -95,6 +95,7 @@ fn small_model(w: &mut Tape, syn: Syntax) -> Vec<ds::Elem> {
         encapsulated: syn == Syntax::ExplicitLE,
         all_undefined: false,
         latin1: false,
+        utf8: false,
     };
     let mut m = model_items_undef(&restrict_to(&ds::gen_dataset(w, &gcfg), syn));
     if !big {
